@@ -16,7 +16,11 @@ def build_cases(rng, tier):
     for i in range(n):
         r = rng.fork("rj%d" % i)
         be = r.weighted([('nr', 5), ('r', 2), ('c99', 2), ('cxx', 2)])
-        prog = rulesets.gen_program(r, trailing=False)
+        prog = rulesets.gen_program(r, trailing=(i % 3 == 0))
+        import patgen
+        for rl in prog['rules']:      # the REJECT oracle splits fixed-length trailing context only
+            if rl.get('trail') not in (None, '$') and patgen.fixed_len(rl['head']) is None and patgen.fixed_len(rl['trail']) is None:
+                rl['trail'] = None
         nr = len(prog['rules'])
         pols = {}
         for j in range(1, nr + 1):
@@ -93,7 +97,7 @@ def main(tier):
             "table option x back end; the sequence of executed actions (rule, yyleng) is compared with the specification's walk through "
             "salts (proved complete and ordered) and with the walk through the emitted yy_acclist tables; "
             "non-trivial = DFA >= 3 states and >= 2 rules executed",
-            ["REJECT combined with trailing context is not generated (C06 covers trailing context, with the REJECT tables it forces)",
+            ["REJECT combined with variable-length trailing context is not generated (fixed-length context is)",
              "the overflow clause (token outgrowing the non-growing buffer) is exercised in C03"],
             worker=worker, post=post)
     finally:
